@@ -148,27 +148,38 @@ Lemma success_maps_finished :
   && forallb (fun c => State_eqb (flux_state c) FINISHED) flux_success = true.
 Proof. vm_compute. reflexivity. Qed.
 
-(** LSF's refinement of EXIT by the termination reason (manual: TERM_RUNLIMIT =
-    run limit reached, TERM_OWNER = killed by owner) *)
+(** LSF's refinement of EXIT by the termination reason: the implementation's
+    rule (T-data: [lsf_exit_trigger], [lsf_exit_rules]) is the manual's
+    ([lsf_row_code]: TERM_RUNLIMIT = run limit reached, TERM_OWNER = killed by
+    owner) *)
+Lemma lsf_effective_row_code : forall stat reason,
+  lsf_effective stat reason = lsf_row_code stat reason.
+Proof.
+  intros stat reason. unfold lsf_effective, lsf_row_code.
+  change lsf_exit_trigger with (s "EXIT").
+  change lsf_exit_rules with [(lsf_term_runlimit, s "TIMEOUT"); (lsf_term_owner, s "CANCELLED")].
+  destruct (str_eqb stat (s "EXIT")); [|reflexivity].
+  simpl refine.
+  destruct (contains lsf_term_runlimit reason); [reflexivity|].
+  destruct (contains lsf_term_owner reason); reflexivity.
+Qed.
+
 Lemma lsf_exit_refinement : forall reason,
-  lsf_state (lsf_effective (s "EXIT") reason) =
+  lsf_state (lsf_row_code (s "EXIT") reason) =
   if contains lsf_term_runlimit reason then TIMEDOUT
   else if contains lsf_term_owner reason then CANCELLED
   else FAILED.
 Proof.
-  intro reason. unfold lsf_effective.
-  change (str_eqb (s "EXIT") lsf_exit_trigger) with true. cbv iota.
-  change lsf_exit_rules with [(lsf_term_runlimit, s "TIMEOUT"); (lsf_term_owner, s "CANCELLED")].
-  simpl refine.
+  intro reason. unfold lsf_row_code.
+  change (str_eqb (s "EXIT") (s "EXIT")) with true. cbv iota.
   destruct (contains lsf_term_runlimit reason); [vm_compute; reflexivity|].
   destruct (contains lsf_term_owner reason); vm_compute; reflexivity.
 Qed.
 
-Lemma lsf_effective_other : forall stat reason,
-  stat <> s "EXIT" -> lsf_effective stat reason = stat.
+Lemma lsf_row_code_other : forall stat reason,
+  stat <> s "EXIT" -> lsf_row_code stat reason = stat.
 Proof.
-  intros stat reason H. unfold lsf_effective.
-  change lsf_exit_trigger with (s "EXIT").
+  intros stat reason H. unfold lsf_row_code.
   apply str_eqb_neq in H. rewrite H. reflexivity.
 Qed.
 
